@@ -21,7 +21,7 @@ try:
     bad = 0
     with concurrent.futures.ThreadPoolExecutor(10) as ex:
         for p, rc, out in ex.map(one, props):
-            if rc != 0:
+            if rc != 0 or '\n  UNKNOWN ' in out:
                 bad += 1
                 lines = [l for l in out.splitlines() if not l.startswith('  rule') and 'VIOLATION property' not in l]
                 print('%s rc=%d :: %s' % (p, rc, ' || '.join(l[:300] for l in lines[1:4])))
